@@ -616,10 +616,13 @@ fn cmd_gen(args: &[String]) {
         let mut c = sample_case(&mut rng, id, profile, unsafe_sel);
         c.warm = 0;
         if let Mode::Rand(s) = c.mode {
-            // S3 needs fuzzer-bytes mode (the model ports Unstructured, not ChaCha)
-            let mut r = Rng(s);
-            let len = r.below(2500) as usize;
-            c.mode = Mode::Arb(r.bytes(len));
+            // both sources are ported exactly (Unstructured and ChaCha8): keep every third seeded case
+            // seeded, turn the others into fuzzer-bytes cases of varied length
+            if id % 3 != 0 {
+                let mut r = Rng(s);
+                let len = r.below(2500) as usize;
+                c.mode = Mode::Arb(r.bytes(len));
+            }
         }
         println!("{}", gen_line(&c));
         id += 1;
